@@ -10,6 +10,14 @@ C06  Printed expressions denote the expression tree they were printed from.
      handler ASTs; what the language needs is the table in sa/langtables.py.
  R2  explicitly parenthesised nodes (Parenthesised*) are always printed with
      parentheses.
+ R3  numeric literals are signed leaves: an ``IntLiteral`` / ``FloatLiteral`` can
+     hold a negative value (loop unrolling, constant folding), whose text starts
+     with an operator; the literal handlers of the Fortran and Python printers
+     must therefore depend on the enclosing precedence (parenthesise under an
+     operator that binds tighter than a sum): a handler that ignores
+     ``enclosing_prec`` prints ``Power(IntLiteral(-1), 2)`` as ``-1**2``, which both
+     languages read as ``-(1**2)``.  (C is exempt: a unary minus is an ordinary
+     operand there and ``**`` is a function call.)
 Not decided: literal formatting, kind suffixes, intrinsic spelling.
 """
 from sa.printers import judge_printer
@@ -42,6 +50,47 @@ def run(ctx):
         mf, n = judge_printer(ctx, 'R1', rel, cn, lang)
         total += n
     ctx.floor('R1', 'operator pairs judged', total, 150)
+    signed_literals(ctx, 'R3', [('loki/backend/fgen.py', 'FCodeMapper'), ('loki/backend/pygen.py', 'PyCodeMapper')])
+
+
+def signed_literals(ctx, rid, printers):
+    import ast
+    from sa import exprs as X
+    from sa.model import AnalysisError
+    m = ctx.model
+    ctx.rule(rid, 'map_int_literal / map_float_literal of the Fortran and Python printers depend on enclosing_prec (negative values are '
+                  'parenthesised under operators that bind tighter than a sum)')
+    n = 0
+    for rel, cn in printers:
+        C = m.get_class(rel, cn)
+        for hn in ('map_int_literal', 'map_float_literal'):
+            f = m.member_function(C, hn)
+            if f is None:
+                raise AnalysisError(f'{cn}.{hn} not found')
+            n += 1
+            args = [a.arg for a in f.node.args.args]
+            ep = args[2] if len(args) > 2 else None
+            reads = ep is not None and any(isinstance(x, ast.Name) and x.id == ep and isinstance(x.ctx, ast.Load) for x in ast.walk(f.node))
+            # the value must reach a comparison with a precedence constant: directly or through a helper of the class
+            helper_ok = False
+            for c in ast.walk(f.node):
+                if isinstance(c, ast.Call) and isinstance(c.func, ast.Attribute) and isinstance(c.func.value, ast.Name) and c.func.value.id == 'self' \
+                        and any(isinstance(a, ast.Name) and a.id == ep for a in c.args):
+                    h = m.member_function(C, c.func.attr)
+                    if h is not None and any(isinstance(k, ast.Compare) and any('PREC_' in ast.unparse(x) for x in [k.left] + k.comparators)
+                                             for k in ast.walk(h.node)):
+                        helper_ok = True
+                    if c.func.attr == 'parenthesize_if_needed':
+                        helper_ok = True
+            direct = any(isinstance(k, ast.Compare) and ep in ast.unparse(k) and 'PREC_' in ast.unparse(k) for k in ast.walk(f.node))
+            inst = f'{cn}.{hn}'
+            if reads and (helper_ok or direct):
+                ctx.judge(rid, inst, facts={'handler': f.qualname})
+            else:
+                ctx.violation(rid, f'{inst}:ignores-enclosing-precedence', f.where,
+                              f'{f.qualname} prints the value of the literal whatever the context: a negative value (IntLiteral(-1) from loop '
+                              f'unrolling or constant folding) under **, * or / is emitted as -1**2 / a*-2, i.e. a different tree')
+    ctx.floor(rid, 'literal handlers judged', n, 4)
 
 
 def wide(ctx):
@@ -58,6 +107,8 @@ def wide(ctx):
 
 F = 'loki/expression/mappers.py'
 MUTANTS = [
+    Mutant('literal-ignores-context', 'loki/backend/fgen.py', "        return self._parenthesise_negative_literal(result, enclosing_prec)\n\n    map_int_literal = map_float_literal",
+           "        return result\n\n    map_int_literal = map_float_literal", expect=('R3', 'ignores-enclosing-precedence')),
     Mutant('sum-minus-prec-lowered', F, "return '-', PREC_PRODUCT, expr.children[1]", "return '-', PREC_SUM, expr.children[1]",
            expect=('R1', 'Sum.minus<-Sum'), quick=True),
     Mutant('numerator-prec-none', F,
